@@ -181,3 +181,7 @@ impl PollHandle {
             .await
     }
 }
+
+#[cfg(kani)]
+#[path = "/verif/harness/master_poll.rs"]
+mod verif_harness;
